@@ -345,6 +345,141 @@ example :
       getP t' ["m", "level"] = .ok (.leaf (some (.int 200))) ∧ getP t' ["m", "seed"] = .ok (.leaf (some (.int 7))) :=
   ⟨_, rfl, rfl, rfl⟩
 
+/-! ## calibration variables: every key receives its own slice, whatever the declaration order -/
+
+theorem slices_keys (vars : List (List String × Option Nat)) (xs : List Val) :
+    (slices vars xs).map Prod.fst = vars.map Prod.fst := by
+  induction vars generalizing xs with
+  | nil => rfl
+  | cons v r ih =>
+    obtain ⟨k, w⟩ := v
+    cases w <;> simp [slices, ih]
+
+/-- **After `update_processor`, every calibration key reads exactly the slice computed for it** — scalar
+and vector variables in any order and number, provided the keys are distinct settings (pairwise unrelated);
+nothing assigned for a later variable can disturb an earlier one. -/
+theorem get_after_calUpdate {strict : Bool} {accepts : Nat → Val → Except Err Unit} {t t' : Tree}
+    {vars : List (List String × Option Nat)} {xs : List Val}
+    (h : calUpdate strict accepts t vars xs = .ok t')
+    (hk : (vars.map Prod.fst).Pairwise (fun p q => ¬ q <+: p ∧ ¬ p <+: q))
+    {k : List String} {v : Val} (hm : (k, v) ∈ slices vars xs) : getP t' k = .ok (.leaf (some v)) := by
+  unfold calUpdate at h
+  obtain ⟨as, bs, hsplit⟩ := List.append_of_mem hm
+  rw [hsplit] at h
+  apply get_after_history h
+  intro b hb
+  have hkeys : ((as ++ (k, v) :: bs).map Prod.fst).Pairwise (fun p q => ¬ q <+: p ∧ ¬ p <+: q) := by
+    rw [← hsplit, slices_keys]; exact hk
+  rw [List.map_append, List.map_cons, List.pairwise_append] at hkeys
+  have := (List.pairwise_cons.mp hkeys.2.1).1 b.1 (List.mem_map.mpr ⟨b, hb, rfl⟩)
+  exact this
+
+/-- Non-vacuity: a vector variable first, then a scalar, then another vector (the order of seeded defect C08-9). -/
+example :
+    let t : Tree := .node .args [("a", .rw, .leaf none), ("b", .rw, .leaf none), ("c", .rw, .leaf none)]
+    ∃ t', calUpdate true (fun _ _ => .ok ()) t [(["a"], some 2), (["b"], none), (["c"], some 1)]
+        [.int 10, .int 11, .int 12, .int 13] = .ok t' ∧
+      getP t' ["a"] = .ok (.leaf (some (.list [.int 10, .int 11]))) ∧
+      getP t' ["b"] = .ok (.leaf (some (.int 12))) ∧ getP t' ["c"] = .ok (.leaf (some (.list [.int 13]))) :=
+  ⟨_, rfl, rfl, rfl, rfl⟩
+
+/-! ## command-line overrides are never cut -/
+
+def joinEq : List (List Char) → List Char
+  | [] => []
+  | [a] => a
+  | a :: b :: r => a ++ '=' :: joinEq (b :: r)
+
+theorem splitOnEq_ne_nil (cs : List Char) : splitOnEq cs ≠ [] := by
+  induction cs with
+  | nil => simp [splitOnEq]
+  | cons c r ih =>
+    unfold splitOnEq
+    split
+    · simp
+    · split <;> simp
+
+theorem joinEq_splitOnEq (cs : List Char) : joinEq (splitOnEq cs) = cs := by
+  induction cs with
+  | nil => rfl
+  | cons c r ih =>
+    unfold splitOnEq
+    by_cases hc : c = '='
+    · simp only [hc, if_true]
+      cases hs : splitOnEq r with
+      | nil => exact absurd hs (splitOnEq_ne_nil r)
+      | cons h t => rw [hs] at ih; simp [joinEq, ih]
+    · simp only [hc, if_false]
+      cases hs : splitOnEq r with
+      | nil => exact absurd hs (splitOnEq_ne_nil r)
+      | cons h t =>
+        rw [hs] at ih
+        cases t with
+        | nil => simp only [joinEq] at ih ⊢; rw [ih]
+        | cons b r' => simp only [joinEq] at ih ⊢; rw [← ih]; simp
+
+theorem splitOnEq_no_eq (cs : List Char) : ∀ p ∈ splitOnEq cs, '=' ∉ p := by
+  induction cs with
+  | nil => simp [splitOnEq]
+  | cons c r ih =>
+    unfold splitOnEq
+    by_cases hc : c = '='
+    · simp only [hc, if_true]
+      intro p hp
+      rcases List.mem_cons.mp hp with rfl | hp
+      · simp
+      · exact ih p hp
+    · simp only [hc, if_false]
+      cases hs : splitOnEq r with
+      | nil => exact absurd hs (splitOnEq_ne_nil r)
+      | cons h t =>
+        rw [hs] at ih
+        intro p hp
+        rcases List.mem_cons.mp hp with rfl | hp
+        · have := ih h (by simp)
+          intro hm
+          rcases List.mem_cons.mp hm with e | e
+          · exact hc e.symm
+          · exact this e
+        · exact ih p (by simp [hp])
+
+/-- **An accepted override is `key=value` with the whole rest of the text as value**: nothing is dropped, and
+neither part contains a `=` (a text with no or several `=` is refused, before anything runs). -/
+theorem parseOverride_ok {cs k v : List Char} (h : parseOverride cs = .ok (k, v)) :
+    cs = k ++ '=' :: v ∧ '=' ∉ k ∧ '=' ∉ v := by
+  unfold parseOverride at h
+  split at h
+  · next k' v' hs =>
+    cases h
+    have hj := joinEq_splitOnEq cs
+    have hn := splitOnEq_no_eq cs
+    rw [hs] at hj hn
+    exact ⟨by simpa [joinEq] using hj.symm, hn k (by simp), hn v (by simp)⟩
+  · cases h
+
+theorem splitOnEq_of_no_eq {v : List Char} (h : '=' ∉ v) : splitOnEq v = [v] := by
+  induction v with
+  | nil => rfl
+  | cons c r ih =>
+    have hc : c ≠ '=' := fun e => h (by simp [e])
+    have hr : '=' ∉ r := fun e => h (by simp [e])
+    simp [splitOnEq, hc, ih hr]
+
+/-- conversely every `key=value` without further `=` is accepted as written -/
+theorem parseOverride_of_single_eq {k v : List Char} (hk : '=' ∉ k) (hv : '=' ∉ v) :
+    parseOverride (k ++ '=' :: v) = .ok (k, v) := by
+  have : splitOnEq (k ++ '=' :: v) = [k, v] := by
+    induction k with
+    | nil => simp [splitOnEq, splitOnEq_of_no_eq hv]
+    | cons c r ih =>
+      have hc : c ≠ '=' := fun e => hk (by simp [e])
+      have hr : '=' ∉ r := fun e => hk (by simp [e])
+      simp [splitOnEq, hc, ih hr]
+  simp [parseOverride, this]
+
+example : parseOverride "a.b=run=7/flat.fits".toList = .error .value := by rfl
+example : parseOverride "a.b=7".toList = .ok ("a.b".toList, "7".toList) := by rfl
+
 /-! ## a key either resolves to exactly one existing slot, or is rejected -/
 
 /-- `has` answers `True` exactly for the keys that name an existing slot (`slotAt` is a function:
